@@ -58,6 +58,8 @@ fixed("FX-C10-03", "C10", "a395240", "data race on FieldQuery.hash (W/W and R/W 
 
 fixed("FX-C11-02", "C11", "10c1296", "a DebugDOT(w) writer given without Debug() was written to (206 bytes) and closed by a later unrelated Debug() call: Option.DebugDOTOut/DebugOut survived in the pooled context")
 
+fixed("FX-C07-02", "C07", "b177bea", "stream struct-key lookup read through the stale data pointer of the previous buffer after a refill inside an escaped key (checkptr: pointer arithmetic result points to invalid allocation in decoder.char)")
+
 # ------------------------------------------------------------------ C05
 ALL15 = r"(Valid|Unmarshal:.+|Decode:.+)"
 STREAM = r"(Valid|Decode:.+)"
@@ -179,7 +181,7 @@ def enc_features(prop, monitor, pfx):
     known(pfx + "-EMB", prop, r"(%s|process)" % monitor, E, r"(missing-member|extra-member|panic:nil-deref|token:.+)", r".* @ feature:embedded-(conflicts|structof)",
           'EmbShadow{EmbDeep; A string; *EmbInner2}: member F of the embedded EmbDeep is dropped', "internal/encoder/compiler.go filterDuplicatedFields / anonymous struct handling differs from encoding/json dominance rules; nil embedded pointer dereferenced",
           "other member-set differences on structs with embedded fields", "field dominance logic is spread over compiler and decoder")
-    known(pfx + "-MPVAL", prop, monitor, E, r"token:o->[as]", r".* @ feature:(marshalerP-by-value|tags-zoo)",
+    known(pfx + "-MPVAL", prop, monitor, E, r"(token:o->[as]|marshaler-output-differs)", r".* @ feature:(marshalerP-by-value|tags-zoo)",
           '[3]MP{...} (pointer-receiver MarshalJSON, unaddressable elements): go-json calls the method, encoding/json encodes the struct', "internal/encoder/compiler.go: pointer-receiver marshalers are used on values that encoding/json treats as unaddressable",
           "other o->a / o->s token differences on by-value pointer-receiver marshalers", "addressability is not tracked by the opcode compiler")
     known(pfx + "-NILMV", prop, monitor, E, r"(token:o->z|panic:nil-deref)", r".* @ feature:nilable-marshalerV",
@@ -419,6 +421,10 @@ known("KF-C20-01", "C20", "path-select", r"(Extract|Path\.Unmarshal)", r"(select
 known("KF-C20-02", "C20", "path-select", r"Extract", r"selection-mismatch:scalar-returned-for-selector", r"(child-only|index|wildcard|multi-wildcard)",
       '$.x.id on 1 returns ["1"]; $[*].k on [{"k":null},7] returns [null 7]; on a string the unquoted contents are returned', "internal/decoder/*.go DecodePath of the scalar decoders return the scalar itself whatever selectors remain",
       "nothing else (the predicate reproduces go-json's parts exactly)", "scalar decoders would have to report 'not found'")
+
+known("KF-C08-ASAN-01", "C08", "process", r"asan.*", r"asan:(use-after-poison|unknown-crash)", r"/internal/encoder/vm[a-z_]*\\.ptrToPtr @ (core|feature:.*)",
+      'Marshal(&struct{H [3][2]uint32; Id struct{} `json:",omitempty"`}{}) reads 8 bytes at the offset of the trailing zero-size field: 4 of them lie in the poisoned tail of the allocation', "internal/encoder/vm*/vm.go omitempty opcodes for struct-kind fields load a pointer-sized word at the field offset whatever the field size",
+      "other ASan reports whose innermost frame is ptrToPtr", "generated opcodes x 4 interpreters")
 
 json.dump({"comment": "generated by tools/gen_known.py; never written at check time", "findings": F},
           open(os.path.join(os.path.dirname(os.path.abspath(__file__)), "..", "known_findings.json"), "w"), indent=1, ensure_ascii=False)
